@@ -1628,6 +1628,12 @@ def dumps_internal(obj: object) -> bytes:
 
 class _Serializer:
     _dispatch: dict[type, Callable[[_Serializer, object], None]] = {}
+    # dispatch is by exact type: a foreign class that merely shares its
+    # name with one of these must not be picked up by the name lookup
+    _serializable: frozenset[type] = frozenset(
+        (type(None), bool, bytes, str, int, float, complex)
+        + (list, dict, tuple, set, frozenset, Channel)
+    )
 
     def __init__(self, write: Callable[[bytes], None] | None = None) -> None:
         if write is None:
@@ -1658,7 +1664,7 @@ class _Serializer:
             meth: Callable[[_Serializer, object], None] | None = getattr(
                 self.__class__, methodname, None
             )
-            if meth is None:
+            if meth is None or tp not in self._serializable:
                 raise DumpError(f"can't serialize {tp}") from None
             dispatch = self._dispatch[tp] = meth
         dispatch(self, obj)
